@@ -67,6 +67,15 @@ def i_intrange(eng, st, fr, fn, args, ins):
     name, lo, hi = args
     tid = fn['results'][0]
     v = new_symbol(eng, st, name, tid)
+    if eng.value_mode and eng.vm.is_term(v):
+        if is_sym(lo) or is_sym(hi):
+            raise Unsupported('vf.IntRange with symbolic bounds in value mode')
+        if lo > hi:
+            raise PathEnd('assume-false')
+        st.pc.append(z3.And(v.t >= lo, v.t <= hi))
+        v.lo, v.hi = max(v.lo, lo), min(v.hi, hi)
+        _ret(st, ins, v)
+        return
     if not is_sym(v):
         if is_sym(lo) or is_sym(hi) or not (lo <= v <= hi):
             raise PathEnd('assume-false')
